@@ -230,6 +230,41 @@ def mk():
                              PRELUDE + CR + body, "Manager.mk_fun")
             except Exception as ex:     # noqa
                 rac.fail(f"containers {name} {regen}", f"C13 {name}: {type(ex).__name__}: {ex}", PRELUDE + CR + body, "Manager.gen_fun")
+    rac.section("grouping", "definitions whose value depends on how the expression is GROUPED (right-nested sums / products / differences of floats, "
+                "mixed with a power and a unary minus): the generated setter executes the printed text, the manager evaluates the tree -- the "
+                "containers must be equal bit for bit", "10 expression shapes x 3 value sets")
+    GR = '''
+import xdeps
+def mk(vals):
+    d = dict(x=vals[0], y=vals[1], z=vals[2], t=1.0, s=0.0)
+    m = xdeps.Manager(); r = m.ref(d, "d")
+    return d, m, r
+SHAPES = ["r['x'] + (r['y'] + r['z'])", "(r['x'] + r['y']) + r['z']", "r['x'] * (r['y'] * r['z'])", "r['x'] - (r['y'] - r['z'])",
+          "r['x'] / (r['y'] / r['z'])", "r['x'] + (r['y'] + (r['z'] + r['t']))", "r['x'] * (r['y'] + r['z'])", "r['x'] - (r['y'] + r['z'])",
+          "-(r['x'] + r['y']) + (r['z'] + r['t'])", "r['x'] ** (r['y'] ** r['z'])"]
+'''
+    genv = {}
+    exec(GR, genv)
+    for si, shape in enumerate(genv["SHAPES"]):
+        for vals in ((0.1, 0.2, 0.3), (1e16, -1e16, 1.0), (1.1, 2.3, 0.7)):
+            body = (f"d1, m1, r = mk({vals!r}); d2, m2, r2 = mk({vals!r})\nr['s'] = {shape}\nr = r2; r2['s'] = {shape}\n"
+                    f"fun = m1.gen_fun('setter', t=m1.containers['d']['t'])\nfun(2.5)\nr2['t'] = 2.5\nprint(d1, d2)\nassert d1 == d2\n")
+            rac.case((si, vals), sample=dict(definition=shape, values=vals))
+            try:
+                d1, m1, r1 = genv["mk"](vals)
+                d2, m2, r2 = genv["mk"](vals)
+                r1["s"] = eval(shape, dict(r=r1))
+                r2["s"] = eval(shape, dict(r=r2))
+                fun = m1.gen_fun("setter", t=r1["t"])
+                fun(2.5)
+                r2["t"] = 2.5
+                if repr(d1) != repr(d2):
+                    rac.fail(f"grouping {si}", f"C13 s = {shape} with {vals}: generated setter leaves {d1}, assignment through the manager {d2}",
+                             PRELUDE + GR + body, "Manager.mk_fun")
+            except (ZeroDivisionError, OverflowError):
+                continue
+            except Exception as ex:     # noqa
+                rac.fail(f"grouping {si}", f"C13 s = {shape}: {type(ex).__name__}: {ex}", PRELUDE + GR + body, "Manager.gen_fun")
     return rac.finish()
 
 
